@@ -424,6 +424,7 @@ func (e *envA) report(v *evid.Violation) *evid.Violation {
 func (e *envA) closeAndJudge(ctx context.Context, step string) *evid.Violation {
 	before := takeSnap(e.tgt)
 	rb := reach(e.tgt)
+	rb.resolveEdges()
 	cerr := e.api.Close(ctx, e.tgtRef(0, ""))
 	after := takeSnap(e.tgt)
 	wasDue := e.due
